@@ -19,7 +19,7 @@ from runner import HarnessError
 
 PID = "C43"
 LEVEL = "exploration"
-RULE = ("Hypothesis op sequences (<=30 steps) over a pool of 8 flows (4 HTTP, 2 TCP, 1 UDP, 1 DNS): add, mutate+update "
+RULE = ("Hypothesis op sequences (<=40 steps, single ops and 2-3-op motifs on one flow) over a pool of 8 flows (4 HTTP, 2 TCP, 1 UDP, 1 DNS): add, mutate+update "
         "(method/path/body/response/message/mark/unmark), the same mutations WITHOUT update (flow changes between hooks), remove, clear, clear_unmarked, set filter (8 filters), set order "
         "(4), reverse, marked-only toggle, focus moves, setvalue, duplicate, focus-follow; non-trivial = a sort key "
         "changed while a non-default order was active, or an add/update happened in marked-only mode, or a flow "
@@ -70,8 +70,7 @@ def _match(fi, m):
 
 
 # ------------------------------------------------------------------ strategy
-# skewed towards a few "hot" flows so that consecutive operations often hit the same flow
-_idx = st.sampled_from([0, 0, 0, 0, 1, 1, 1, 2, 2, 3, 4, 4, 5, 6, 7])
+_idx = st.integers(0, NPOOL - 1)
 _ops = st.one_of(
     st.tuples(st.just("add"), _idx),
     st.tuples(st.just("add"), _idx),
@@ -101,6 +100,26 @@ _ops = st.one_of(
 )
 
 
+def _flow_ops(i):
+    """operations on one given flow"""
+    mutk = st.sampled_from(["method", "path", "body", "resp", "msg", "mark", "unmark"])
+    return st.one_of(
+        st.just(("add", i)),
+        st.tuples(st.just("mut"), st.just(i), mutk, st.integers(0, 6)),
+        st.tuples(st.just("mutq"), st.just(i), st.sampled_from(["body", "msg", "method", "path", "resp"]), st.integers(0, 6)),
+        st.tuples(st.just("mutq"), st.just(i), st.sampled_from(["body", "msg", "method", "path", "resp"]), st.integers(0, 6)),
+        st.just(("remove", [i])),
+        st.just(("remove", [i])),
+        st.tuples(st.just("setval"), st.just(i), st.sampled_from(["k", "x"])),
+        st.just(("dup", i)),
+    )
+
+
+# motif: two or three consecutive operations on the same flow (pairwise interactions such as change-then-remove,
+# remove-then-add, change-then-duplicate are otherwise rare with 8 flows and ~20 operation kinds)
+_motif = st.one_of(*[st.lists(_flow_ops(i), min_size=2, max_size=3) for i in range(NPOOL)])
+
+
 def strategy(ctx):
     # a prefix that populates the store and (often) selects a non-default order / filter / marked-only mode, so that the
     # interesting states are reached within the step bound; the prefix consists of ordinary ops
@@ -111,7 +130,8 @@ def strategy(ctx):
         st.one_of(st.just([]), st.just([]), st.integers(0, len(FILTERS) - 1).map(lambda k: [("filter", k, False)])),
         st.one_of(st.just([]), st.just([]), st.just([("toggle_marked",)])),
     ).map(lambda t: [op for part in t for op in part])
-    return st.tuples(init, st.lists(_ops, min_size=3, max_size=24)).map(lambda t: t[0] + t[1])
+    segs = st.lists(st.one_of(_ops.map(lambda o: [o]), _ops.map(lambda o: [o]), _motif), min_size=3, max_size=16)
+    return st.tuples(init, segs).map(lambda t: (t[0] + [op for seg in t[1] for op in seg])[:40])
 
 
 # ------------------------------------------------------------------ pool
